@@ -107,6 +107,8 @@ pub const CUBE_OPTIONS: &[&str] = &[
     "xhr,3p", "redirect=a", "csp=d1", "removeparam=utm", "websocket", "~websocket,~image",
     // two category-deciding options on one rule (the category dispatch must take the modifier)
     "csp=d1,important", "removeparam=utm,important", "redirect=a,important", "redirect-rule=b", "important,tag=t1", "csp=d2,tag=t1",
+    // same mask, another modifier value (nothing may merge them)
+    "csp=d3", "redirect=b", "removeparam=x",
 ];
 
 /// The rule text for one cell of the cube, or None for cells that make no sense (an empty pattern
